@@ -163,6 +163,11 @@ func (lc *logClassifier) instr(i ssa.Instruction) string {
 
 func c19(c *Ctx) {
 	p, r := c.K1(), c.R
+	// R4: the wrapper that logging puts around a callback lives as long as the callback would — what the stub embeds is
+	// retained by the context (C07.R1)
+	if !c.importing {
+		importSibling(c, "C07", "C19.R4", func(rule string) bool { return rule == "C07.R1" })
+	}
 	r.Expl = "Structural clauses behind 'logging never changes behaviour' (non-interference): the log-level globals and the logger's predicates are taint sources; every branch outside package logger whose condition is tainted controls a region that is log-only (pure computation, logger/fmt/rendering calls, stores to locals; no store to outer state, no value returned, no panic); the one sanctioned interception wrapper is transparent: each closure forwards its unmodified parameter slice to the captured original exactly once on every path (CallSlice iff variadic), returns exactly that result, and is otherwise log-only; with debugging closed the interceptor returns its inputs. Termination of fmt on cyclic values is not decided."
 	r.RuleText = "one obligation per (rule, tainted branch / closure / return)"
 	r.Floor("C19.R1", 3)
